@@ -1374,7 +1374,6 @@ impl<T: PackedInt> IntVec<T> {
 
         // Pre-allocate index with golden ratio growth
         // SAFETY: samples has num_blocks elements (pushed in the loop above), num_blocks >= 1
-        let sample_min = *samples.iter().min().unwrap();
         let index_bits = num_blocks * sample_width as usize;
         let index_bytes = (index_bits + 7) / 8;
         let index_capacity = ((index_bytes * 103) / 64).max(index_bytes);
@@ -1384,7 +1383,7 @@ impl<T: PackedInt> IntVec<T> {
         let mut bit_offset = 0;
         
         for &sample in &samples {
-            let offset_sample = sample - sample_min;
+            let offset_sample = sample;
             self.write_bits_bulk(&mut index_data, offset_sample, bit_offset, sample_width)?;
             bit_offset += sample_width as usize;
         }
@@ -1682,9 +1681,9 @@ impl<T: PackedInt> IntVec<T> {
         }
 
         // SAFETY: samples has num_blocks elements (len >= 64, so num_blocks >= 1)
-        let sample_min = *samples.iter().min().unwrap();
+        // Samples are stored as absolute values: the reader has no base to add back.
         let sample_max = *samples.iter().max().unwrap();
-        let sample_width = BitOps::compute_bit_width(sample_max - sample_min);
+        let sample_width = BitOps::compute_bit_width(sample_max);
 
         // Analyze offset values within blocks
         let mut max_offset = 0u64;
@@ -1846,7 +1845,6 @@ impl<T: PackedInt> IntVec<T> {
 
         // Compress samples
         // SAFETY: samples has num_blocks elements (pushed in the loop above), num_blocks >= 1
-        let sample_min = *samples.iter().min().unwrap();
         let index_bits = num_blocks * sample_width as usize;
         let index_bytes = (index_bits + 7) / 8;
         let index_aligned = (index_bytes + 15) & !15;
@@ -1855,7 +1853,7 @@ impl<T: PackedInt> IntVec<T> {
         let mut bit_offset = 0;
         
         for &sample in &samples {
-            let offset_sample = sample - sample_min;
+            let offset_sample = sample;
             self.write_bits(&mut index_data, offset_sample, bit_offset, sample_width)?;
             bit_offset += sample_width as usize;
         }
